@@ -277,10 +277,34 @@ def run(prop, tier, seed, replay=None):
         lines.append(f"VIOLATION property={prop} replay={replay_path}")
         rc = 1
     elif internal_only or theorem_broken:
-        if internal_only:
-            r, it = internal_only[0]
-            small = shrink(prop, r["case"], False) if not replay else r["case"]
+        # search: look harder for an API-visible failing input behind the internal difference
+        found = None
+        for r, it in internal_only[:6]:
+            probe = S.deep_probe_case(r["case"], r["trace"])
+            pr = S.run_cases([probe], jobs=1)[0]
+            o, _ = findings_for(prop, pr)
+            o = [x for x in o if not C.finding_for(prop, signature_of(prop, pr["case"], x))]
+            if o:
+                found = (pr, o)
+                break
+        if found:
+            pr, o = found
+            small = shrink(prop, pr["case"], True)
             rr = S.run_cases([small], jobs=1)[0]
+            o2, _ = findings_for(prop, rr)
+            if not o2:
+                small, rr, o2 = pr["case"], pr, o
+            replay_path = C.write_replay(prop, {
+                "property": prop, "tier": tier, "seed": seed, "layer": "store", "case": small,
+                "impl_trace": [{"op": e["op"], "obs": e["obs"]} for e in rr["trace"]],
+                "model_trace": [m.get("model") for m in rr["model"]],
+                "findings": o2[:5], "broken": "correspondence:store (found by the probe search)",
+                "signature": signature_of(prop, small, o2[0])})
+            lines.append(f"VIOLATION property={prop} replay={replay_path}")
+            violations.append((rr, o2[0]))
+            rc = 1
+    if rc == 0 and (internal_only or theorem_broken):
+        if internal_only:
             broken = "correspondence:store/%s after %s" % ("+".join(it.get("comps", [])), it.get("op"))
             payload_case, tr, fnd = small, rr, findings_for(prop, rr)[1][:5]
         else:
